@@ -17,8 +17,6 @@ func NewPrintReporter returns (pr)
 // The normal form of one record (C14): the heading in the reporter's date layout, then every note (name and value,
 // or the bare text), then every entry with its name and its quantity (formatted with two decimals), then a blank
 // line - nothing is left out, nothing is altered before formatting. Operands of the prints are recorded in prArgs.
-pred PrintedStr(k int, j int, v string) := typeis(prArgs[k][j], "string") && cellat(string, payload(prArgs[k][j])) == v
-pred PrintedF(k int, j int, v float64) := typeis(prArgs[k][j], "float64") && cellat(float64, payload(prArgs[k][j])) == v
 
 func (PrintReporter).Process returns (err)
   props C17 C08 C14
